@@ -39,12 +39,25 @@ func estSteps(w string, workers int) int {
 // over s samples that differ by one moved sample and whose uniformity P-values
 // lie on either side of 0.0001. heavy0 forces the surplus into bin 0.
 func BoundaryBins(s int, r *simctl.Rand, heavy0 bool) (above, below []int) {
+	h := -1
+	if heavy0 {
+		h = 0
+	}
+	return BoundaryBinsH(s, r, h, -1)
+}
+
+// BoundaryBinsH is BoundaryBins with the surplus forced into bin `heavy`
+// (-1: free) and bin `protect` (-1: none) never drained.
+func BoundaryBinsH(s int, r *simctl.Rand, heavy, protect int) (above, below []int) {
 	b := flatBins(s)
 	for iter := 0; iter < 10000; iter++ {
 		from := r.Intn(10)
 		to := r.Intn(10)
-		if heavy0 {
-			to = 0
+		if from == protect {
+			continue
+		}
+		if heavy >= 0 {
+			to = heavy
 		} else if r.Intn(3) > 0 {
 			// prefer piling onto the currently fullest bin: reaches the tail faster
 			mx := 0
@@ -135,6 +148,24 @@ func scenarios(w string, r *simctl.Rand, thorough bool) []scenario {
 		add("uniformity-just-above", ItemDirective{Item: it, PassCount: -1, Bins: ab, Edge: i%3 == 2})
 		add("uniformity-just-below", ItemDirective{Item: it, PassCount: -1, Bins: be, Edge: i%3 == 2})
 	}
+	// uniformity boundary combined with a tolerated failing sample whose Q lies
+	// in the top bin (two-sided statistics fail on either side): the Q of a
+	// failing sample counts in the histogram like any other
+	for _, it := range []int{0, 4, 7, 8} {
+		if it >= items {
+			continue
+		}
+		nf := 1 + r.Intn(s-th)
+		if ab, _ := BoundaryBinsH(s, r, 0, 9); ab != nil {
+			add("boundary-above+failing-sample-high-q", ItemDirective{Item: it, PassCount: s - nf, Bins: ab, FailHigh: true})
+		}
+		if _, be := BoundaryBinsH(s, r, 9, -1); be != nil {
+			add("boundary-below+failing-sample-high-q", ItemDirective{Item: it, PassCount: s - nf, Bins: be, FailHigh: true})
+		}
+		if !thorough {
+			break
+		}
+	}
 	// two different items violating different criteria
 	{
 		_, be := BoundaryBins(s, r, false)
@@ -213,9 +244,9 @@ func Plan(prop, tier string, seed uint64) []RunConfig {
 	var out []RunConfig
 	switch prop {
 	case "C07":
-		reps := 1
+		reps := 4
 		if thorough {
-			reps = 6
+			reps = 10
 		}
 		for rep := 0; rep < reps; rep++ {
 			for _, w := range []string{WFactory, WPowerOn, WPeriod} {
@@ -271,7 +302,9 @@ func Plan(prop, tier string, seed uint64) []RunConfig {
 				Stream: prfStream(r), Chunk: ChunkSpec{Kind: "full"}, Fault: FaultSpec{Kind: "none"}, Runners: RunnerSpec{Mode: "real"}, ReadYield: 1, Note: "real-runners"})
 		}
 	case "C09":
-		kinds := []string{"eof", "ueof", "custom", "partial"}
+		// partial = data and a custom error in one Read; partialeof = the last
+		// data and io.EOF in one Read (iotest.DataErrReader, many devices)
+		kinds := []string{"eof", "ueof", "custom", "partial", "partialeof"}
 		for _, w := range AllWorkflows {
 			if w == WSingle {
 				continue
